@@ -631,8 +631,13 @@ impl CpcSketch {
             )));
         }
 
-        let uncompressed = compressed.uncompress(lg_k, num_coupons);
-        Ok(CpcSketch {
+        if num_coupons as u64 > 64u64 << lg_k {
+            return Err(Error::deserial(format!(
+                "corrupted: {num_coupons} coupons is more than the matrix of lg_k {lg_k} holds"
+            )));
+        }
+        let uncompressed = compressed.uncompress(lg_k, num_coupons)?;
+        let sketch = CpcSketch {
             lg_k,
             seed,
             seed_hash,
@@ -650,7 +655,38 @@ impl CpcSketch {
                 (1u64 << lg_k) as f64
             },
             hip_est_accum,
-        })
+        };
+        // The announced count must be the number of bits the table and window represent.
+        // Counted without materializing the k x 64 matrix, whose size the image does not bound.
+        let offset = sketch.window_offset;
+        let mut expected = sketch
+            .sliding_window
+            .iter()
+            .map(|b| b.count_ones() as u64)
+            .sum::<u64>();
+        if !sketch.sliding_window.is_empty() {
+            expected += (offset as u64) << lg_k; // the early zone defaults to ones
+        }
+        for &row_col in sketch.surprising_value_table().slots() {
+            if row_col != u32::MAX {
+                let col = (row_col & 63) as u8;
+                if sketch.sliding_window.is_empty() || col >= offset.saturating_add(8) {
+                    expected += 1; // a surprising one
+                } else if col < offset {
+                    expected -= 1; // a surprising zero in the early zone
+                } else {
+                    return Err(Error::deserial(
+                        "corrupted: surprising value inside the window",
+                    ));
+                }
+            }
+        }
+        if expected != num_coupons as u64 {
+            return Err(Error::deserial(
+                "corrupted: coupon count does not match the sketch contents",
+            ));
+        }
+        Ok(sketch)
     }
 
     fn write_hip(&self, bytes: &mut SketchBytes) {
